@@ -242,6 +242,15 @@ def build(ctx):
         return be.prove_equal_cas(body, 2 * x / (mu * tm.app("Z_DAK", [T, x, Tpc, Ppc]) ** tm.rconst("1.001")), GB, seed=ctx.seed, npoints=6)
 
     obs.append(Obligation("canary.cas", "CANARY (must be refuted): the quadrature integrand uses Z**1.001", canary, [HU], "CAS", expect=be.REFUTED))
+    # ---------------- the tabulating route integrates THE SAME gas: every column of build_pvt_gas is the stand-alone
+    # correlation at the Sutton point of the supplied composition (C19 pvt.rows / pvt.grid, run on an engine of their own)
+    from . import c19
+    from ..oblig import Ctx
+    ctx19 = Ctx("C08", ctx.tier, ctx.seed)
+    c19obs = {o.id: o for o in c19.build(ctx19)}
+    for oid in ("pvt.rows", "pvt.grid"):
+        src = c19obs[oid]
+        obs.append(Obligation("dep." + oid, "[contract relied upon, C19] " + src.statement + " (so the table route and the quadrature route integrate the same mu(p) Z(p))", src.run, src.functions, src.backend, src.replay))
     return obs
 
 
